@@ -1,5 +1,5 @@
 From Coq Require Import Lia ZifyBool.
-From RQ Require Import Model.Num Model.Isolation Proofs.NumFacts.
+From RQ Require Import Model.Num Model.Position Model.Account Model.AccountRun Model.Isolation Proofs.NumFacts.
 Open Scope Z_scope.
 
 (* ---- a new run erases what earlier runs left behind ---- *)
@@ -80,4 +80,63 @@ Proof.
   unfold contracts. intros H. apply in_map_iff in H. destruct H as (i & Hi & Hin). apply filter_In in Hin. destruct Hin as [Hin E].
   unfold is_contract in E. apply andb_prop in E. destruct E as [E E4]. apply andb_prop in E. destruct E as [E E3].
   apply andb_prop in E. destruct E as [E1 E2]. exists i. repeat split; auto; lia.
+Qed.
+
+(* ---- the account kernel: positions of instruments the strategy never touches do not change what happens to the others ---- *)
+(* instruments the strategy never touches: extra entries at the end of the account's position table *)
+Definition extend (a : account) (extra : list (pcfg * pos)) : account := with_pos a (a_pos a ++ extra).
+Definition ev_index (e : aev) : option nat :=
+  match e with
+  | ETrade i _ _ | EMark i _ | EReset i | EBook i _ _ | EPay i _ | ESplit i _ | EDelist i _ | ESettleFut i _ | EExpire i => Some i
+  | _ => None
+  end.
+Definition local_to (n : nat) (e : aev) : Prop :=
+  match e with ELiquidate _ => False | _ => match ev_index e with Some i => (i < n)%nat | None => True end end.
+
+Lemma nth_error_app_l {A} (l extra : list A) i : (i < length l)%nat -> nth_error (l ++ extra) i = nth_error l i.
+Proof. intros H. apply nth_error_app1. exact H. Qed.
+Lemma upd_app_l {A} (l extra : list A) i x : (i < length l)%nat -> upd i x (l ++ extra) = upd i x l ++ extra.
+Proof.
+  revert i. induction l as [|h t IH]; intros i H; cbn [length] in H; [lia|].
+  destruct i as [|i]; cbn [app upd]; [reflexivity|]. rewrite IH by lia. reflexivity.
+Qed.
+Lemma upd_length {A} (l : list A) i x : length (upd i x l) = length l.
+Proof. revert i. induction l as [|h t IH]; intros i; destruct i; cbn [upd length]; auto. Qed.
+
+Lemma on_entry_frame a extra i f : (i < length (a_pos a))%nat -> on_entry (extend a extra) i f = extend (on_entry a i f) extra.
+Proof.
+  intros H. unfold on_entry, extend, with_pos, set_entry; cbn [a_pos].
+  rewrite (nth_error_app_l _ extra i H). destruct (nth_error (a_pos a) i) as [[c p]|] eqn:E; [|reflexivity].
+  cbn [a_pos a_total_cash a_frozen a_liab a_pending a_mgmt_fees]. rewrite (upd_app_l _ extra i _ H). reflexivity.
+Qed.
+Theorem astep_frame g a extra e : local_to (length (a_pos a)) e -> astep g (extend a extra) e = extend (astep g a e) extra.
+Proof.
+  intros H. destruct e; cbn [local_to ev_index] in H; try contradiction; cbn [astep];
+    try (apply on_entry_frame; exact H); try reflexivity.
+  - (* trade *) unfold acc_apply_trade, extend, with_pos, with_frozen; cbn [a_pos a_total_cash a_frozen a_liab a_pending a_mgmt_fees].
+    rewrite (nth_error_app_l _ extra i H). destruct (nth_error (a_pos a) i) as [[c p]|]; [|reflexivity].
+    cbn [a_pos]. rewrite (upd_app_l _ extra i _ H). reflexivity.
+  - (* mark *) unfold mark, extend, with_pos; cbn [a_pos a_total_cash a_frozen a_liab a_pending a_mgmt_fees].
+    rewrite (nth_error_app_l _ extra i H). destruct (nth_error (a_pos a) i) as [[c p]|]; [|reflexivity].
+    cbn [a_pos]. rewrite (upd_app_l _ extra i _ H). reflexivity.
+  - (* interest *) unfold accrue_interest, extend, with_pos, interest; cbn [a_liab a_pos a_total_cash a_frozen a_pending a_mgmt_fees].
+    destruct (qlt_b 0 (a_liab a)); reflexivity.
+Qed.
+Lemma on_entry_length a i f : length (a_pos (on_entry a i f)) = length (a_pos a).
+Proof.
+  unfold on_entry, set_entry. destruct (nth_error (a_pos a) i) as [[c p]|] eqn:E; [|reflexivity]. cbn [a_pos]. apply upd_length.
+Qed.
+Lemma astep_length g a e : local_to (length (a_pos a)) e -> length (a_pos (astep g a e)) = length (a_pos a).
+Proof.
+  intros H. destruct e; cbn [local_to ev_index] in H; try contradiction; cbn [astep]; try reflexivity;
+    try apply on_entry_length.
+  - unfold acc_apply_trade. destruct (nth_error (a_pos a) i) as [[c p]|]; cbn [a_pos with_frozen]; [apply upd_length | reflexivity].
+  - unfold mark. destruct (nth_error (a_pos a) i) as [[c p]|]; cbn [a_pos with_pos]; [apply upd_length | reflexivity].
+  - unfold accrue_interest. destruct (qlt_b 0 (a_liab a)); reflexivity.
+Qed.
+Theorem arun_frame g evs : forall a extra, Forall (local_to (length (a_pos a))) evs -> arun g (extend a extra) evs = extend (arun g a evs) extra.
+Proof.
+  unfold arun. induction evs as [|e evs IH]; intros a extra H; cbn [fold_left]; [reflexivity|].
+  inversion H as [|? ? He Hr]; subst. rewrite (astep_frame g a extra e He). apply IH.
+  rewrite (astep_length g a e He). exact Hr.
 Qed.
